@@ -13,7 +13,7 @@ use std::collections::BTreeMap;
 pub const INFO: PropInfo = PropInfo {
     id: "C13",
     level: "exploration",
-    rule: "cases = (race-free program with <=5 concurrently live processes: pipelines of 1-4 stages (probe lists, cat, gen N, sink, nested subshells), pipefail on/off, asynchronous lists with $! captured, wait / wait PID (also an already-waited and an unknown pid), pipelines whose last stage exits without reading while upstream stages still hold more than the pipes can buffer (writers must end with EPIPE, not block), pipeline components that stop themselves with SIGSTOP and are resumed from outside when everything else is blocked (the shell must wait for their real end), subshells, command substitutions; schedule set). Schedules: FIFO, then depth-first enumeration of the scheduler's choice vectors up to a budget, then seeded random choosers, all with preemption points on. Oracle per schedule: shell finishes (no deadlock / step bound), per-process probe traces (multiset), stdout lines (multiset), final status and stderr emptiness equal the reference model and therefore equal across schedules; at exit every child of the shell is terminated and reaped. Non-trivial = the program was run under >= 2 distinct choice vectors that differ from FIFO with >= 2 runnable processes at some step; distinct by serialised program.",
+    rule: "cases = (race-free program with <=5 concurrently live processes: pipelines of 1-4 stages (probe lists, cat, gen N, sink, nested subshells), pipefail on/off, asynchronous lists with $! captured, wait / wait PID (also an already-waited and an unknown pid), pipelines whose last stage exits without reading while upstream stages still hold more than the pipes can buffer (writers must die of SIGPIPE, not block; under pipefail the pipeline reports 384 + SIGPIPE), pipeline components that stop themselves with SIGSTOP and are resumed from outside when everything else is blocked (the shell must wait for their real end), subshells, command substitutions; schedule set). Schedules: FIFO, then depth-first enumeration of the scheduler's choice vectors up to a budget, then seeded random choosers, all with preemption points on. Oracle per schedule: shell finishes (no deadlock / step bound), per-process probe traces (multiset), stdout lines (multiset), final status and stderr emptiness equal the reference model and therefore equal across schedules; at exit every child of the shell is terminated and reaped. Non-trivial = the program was run under >= 2 distinct choice vectors that differ from FIFO with >= 2 runnable processes at some step; distinct by serialised program.",
     assumptions: &[
         "interleavings exist only at blocking points and at the hook's preemption points (system-call boundaries of wait/read/write); the real OS is not explored",
         "liveness is decided as: no explored schedule deadlocks or exceeds the step bound",
@@ -65,8 +65,8 @@ pub enum Cmd {
     CmdSub(Vec<Cmd>),
     Pipefail(bool),
     /// `gen N | cat{cats} | st K`: the last stage exits without reading while the writers still
-    /// have more than the pipes can hold, so every writer must see EPIPE (status 1 in the simulated
-    /// system, which has no SIGPIPE) instead of blocking for ever
+    /// have more than the pipes can hold, so every writer must be killed by SIGPIPE (the
+    /// rightmost failure under pipefail is then 384 + SIGPIPE) instead of blocking for ever
     EarlyExit { extra: u16, cats: u8, st: u8 },
     /// a pipeline component stops itself (SIGSTOP) and is resumed from outside once everything
     /// else is blocked: `st 0 | { selfkill STOP; st K; }` (last) or `{ selfkill STOP; st K; } | cat`.
@@ -88,6 +88,8 @@ pub enum Cmd {
 }
 
 const KSIGS: [(&str, i32); 3] = [("USR1", 124), ("USR2", 125), ("TERM", 15)];
+/// SIGPIPE as numbered by the simulated OS
+const VSIGPIPE: i32 = 110;
 
 fn early_exit_len(extra: u16, cats: u8) -> usize {
     // strictly more than all pipes (1024 each) plus the cats' buffers (200 each) can absorb
@@ -303,7 +305,9 @@ impl M {
         c.trace = vec![];
         self.list(&mut c, body);
         self.children.push(c.trace);
-        c.status & 0xff
+        // a subshell whose last command was killed by a signal ends by that signal itself
+        // (docs/src/language/commands/exit_status.md), so the parent sees the same status
+        if c.status >= 384 { c.status } else { c.status & 0xff }
     }
 
     fn list(&mut self, p: &mut MProc, cmds: &[Cmd]) {
@@ -421,7 +425,7 @@ impl M {
                         self.children.push(vec![]);
                     }
                     self.max_live = self.max_live.max(n);
-                    p.status = if *st != 0 || !p.pipefail { *st as i32 } else { 1 };
+                    p.status = if *st != 0 || !p.pipefail { *st as i32 } else { 384 + VSIGPIPE };
                 }
             }
         }
